@@ -10,6 +10,9 @@ CHECKS = {
  "C02": ("E4-word-enumerator", "exhaustive pairwise (and triple-wise) comparison of every realisation of a finite abstract term set in every shipped Term implementation against a structural model",
          "All ordered pairs of realisations across 19 statically typed Term implementations plus parser-internal (Rio) and canonicalisation terms are compared for eq/hash/cmp with a structural model of RDF term identity and with SimpleTerm's order; all triples for transitivity; 13 conversion paths per realisation.",
          "Finite term set (IRIs, blank nodes, variables, literals over 4 lexical forms x 4 datatypes x 5 tags, natives, quoted triples to depth 2); JSON-LD's internal RdfTerm and IsoTerm are not constructible from outside their crates and are exercised by C12/C07.", "DESIGN.md §4 C02"),
+ "C03": ("E4-word-enumerator", "exhaustive enumeration of lexical forms, blank node labels, language tags and IRIs up to a length, placed in every legal position, serialised and parsed back in crash-attributing worker processes; output also read by an independent W3C-grammar reader",
+         "Every string up to the bound over alphabets chosen for the escaping rules (quotes, backslash, CR/LF/TAB, C0 controls, DEL, combining marks, non-BMP, U+FFFE; label characters incl. dots, leading digits, middle dot) is serialised in N-Triples/N-Quads in every position incl. nested quoted triples and parsed back: exact equality of the quads, one line per statement, and an independent reader of the W3C EBNF reads the same quads.",
+         "Independent reader written from the EBNF; language tag case may be normalised (RDF 1.1 term equality); length bounds.", "DESIGN.md §4 C03"),
  "C09": ("E3-product-automaton", "product of the DFA determinised from the crate's regex source with the DFA of the RFC 3987 ABNF (all strings), witness replay per product edge; bounded exhaustive string and (base, reference) pair enumeration against RFC 3986 5.2",
          "Language equality of the validator with RFC 3987 is decided for strings of every length by exploring all reachable product states; the model is bound to the code by construction (built from the crate's public regex source at run time) and by replaying a witness per product edge through every validating entry point. Base conversion, Namespace::get and resolution are checked exhaustively over all strings up to a length and all pairs of a generated IRI set.",
          "regex-automata determinisation; ABNF transcription (cross-checked against oxiri); RFC 3986 5.2 reference (validated on the 42 examples of 5.4); bounds of the string/pair enumerations.", "DESIGN.md §4 C09"),
